@@ -35,7 +35,7 @@ THEOREMS = {
         "C20_cdf", "C20_cdf_bounds", "C20_cdf_mono", "C20_cdf_missing",
         "C20_quantile", "C20_quantile_single", "C20_quantile_def",
         "C20_pit", "C20_pit_missing_obs",
-        "C20_expand", "C20_expand_nowhere_else", "C20_expand_times", "C20_preserve"]],
+        "C20_expand", "C20_expand_nowhere_else", "C20_expand_times", "C20_window_file", "C20_preserve"]],
 }
 TRUSTED_BASE = [
     "Lean 4.33 kernel; axioms propext, Classical.choice, Quot.sound only",
@@ -59,8 +59,8 @@ ASSUMPTIONS = [
     "fcst unwritten because the time/lead grid changes) are read as 'not carried over', not as 'not preserved'",
     "the CDF at t is the fraction of non-missing members strictly below t (consistent with PIT = fraction below "
     "the observation)",
-    "window on a file without obs or fcst is outside the modelled domain (not generated; the oracle still speaks there); "
-    "accumulate on such a file is modelled (C20_accumulate_file)",
+    "accumulate and window on a file without obs or without fcst are modelled (C20_accumulate_file, C20_window_file): "
+    "the field that is present is processed, the absent one is not written",
 ]
 RULE = ("seeded random files: 1-4 times x 1-6 lead times x 1-3 locations, values on a 1/4 grid in [-2,8], missing "
         "cells/series/fields, 1-6 members (with ties and missing members); NetCDF (NaN or masked) and text (unixtime "
@@ -68,7 +68,8 @@ RULE = ("seeded random files: 1-4 times x 1-6 lead times x 1-3 locations, values
         "large enough for SciPy's auto method to pick FFT (48 lead times x 10 locations, -w 24; the scripts now force "
         "the direct method); ens2prob: thresholds "
         "below/inside/equal-to-member/above, levels incl. 0 and 1, -p; expandverif: -i hour lists (or default), "
-        "-lt lists partly outside the input, unsorted and overlapping times; an op is non-trivial if the transformed "
+        "-lt lists partly outside the input, unsorted and overlapping times; window: files with both fields and files "
+        "that lack obs, fcst or both; an op is non-trivial if the transformed "
         "field holds a finite number")
 EXHAUSTIVE = {"quick": False, "thorough": False}
 EXHAUSTIVE_NOTE = "random; for each generated series length every window length 1..len+1 is visited over the stream"
@@ -538,6 +539,13 @@ def gen_ops(tier, rng):
     for i in range(n_t2n):
         file = _gen_file(rng, fmt=rng.choice(["txt", "txtd"]))
         yield "t2n.file", " ".join(["t2n"] + file)
+    # ---- window.py on a file that lacks one of the two fields (or both)
+    for i in range(6 if quick else 18):
+        need = [("obs",), ("fcst",), ("obs",), ("fcst",), ()][i % 5]
+        # (a text file without any data column is refused by the reader: both fields absent only in NetCDF)
+        file = _gen_file(rng, need=need, nonneg=rng.random() < 0.7, text_ok=bool(need))
+        b = rng.choice(["below=", "below", "above", "above="])
+        yield "win.nofield", " ".join(["win", b, xr(rng.choice([0.0, 0.5, 1.0, 2.0]))] + file)
 
 
 # ------------------------------------------------------------------ oracle (plain Python, exact)
@@ -746,7 +754,14 @@ def _judge_exp(a, f, r):
 
 
 def _judge_win(a, f, r):
-    return None     # window.py is not part of the property text: correspondence + preservation only
+    # window.py is not part of the property text: correspondence + preservation only; a field is written iff the
+    # input has it
+    for key, inp in (("obs", f.obs), ("fcst", f.fcst)):
+        if (inp is None) != (r.get(key) == "none"):
+            return ({"script": "window", "kind": "preserve", "what": key},
+                    "%s field: %s in the input, %s in the output" % (
+                        key, "absent" if inp is None else "present", "absent" if r.get(key) == "none" else "present"))
+    return None
 
 
 def spec_op(op):
@@ -799,11 +814,6 @@ def _reply_eq(x, y):
 
 def _in_domain(op):
     """is the op inside the domain on which the model mirrors the code (else only the oracle speaks)"""
-    a = op.split(" ")
-    if a[0] == "win":
-        file = a[3:3 + NFILE]
-        if file[9] == "none" or file[10] == "none":
-            return False          # window.py has no guard for an absent field (such files are not generated)
     return True
 
 
